@@ -75,6 +75,7 @@ def default_task(prop, spec: dict) -> dict:
     rng = random.Random(kernel.derive_seed(run_seed, "workload"))
     sc = prop.gen(rng, spec["broker"], spec["tier"])
     sc.update({"seed": run_seed, "broker": spec["broker"], "property": spec["pid"]})
+    sc = json.loads(json.dumps(sc))  # what a replay file holds is exactly what was run
     out = prop.run(sc)
     return summarize(sc, [out], keep_sample=spec["idx"] < 2)
 
